@@ -1,6 +1,7 @@
 import JL.Lemmas.Monad
 import JL.Lemmas.C13
 import JL.Lemmas.C04
+import JL.Lemmas.C04Ref
 /-!
 # C04 — only rule text is executed: data and computed values are never re-interpreted
 
@@ -23,7 +24,7 @@ checker rejecting the definition; and the model agrees with the crate on > 10^6 
 marker-data stream of this property. What remains to be *stated* are the consequences below: operands are
 evaluated once, in order, and only their values reach the operator (`eager_subst`, `trace_once`, `var_default…`).
 
-`Spec.Ref.eval` (`JL/Spec/Ref.lean`) is the single-pass reference semantics; `ref_equiv` is at the end of this file.
+`Spec.Ref.eval` (`JL/Spec/Ref.lean`) is the single-pass reference semantics; `ref_equiv` below states the agreement.
 -/
 namespace JL.Props.C04
 open JL Json
@@ -191,7 +192,50 @@ theorem var_default_value (k dflt d : Json) (lk ld : List Json) (kv dv : Json) (
   rw [var_default d kv dv key hkey]
   simp
 
+/-! ## agreement with the single-pass reference semantics -/
+
+/-- the reference semantics `Spec.Ref.eval` (one pass over the rule, no parse phase, textbook definitions of the lazy
+operators, `JL/Spec/Ref.lean`) is exactly the successful part of the two-phase model, for every rule and data -/
+theorem ref_agree (r d : Json) : Spec.Ref.eval r d = Spec.Ref.R.ofM (apply r d) :=
+  JL.Lemmas.C04Ref.eval_eq_ofM_apply r d
+
+/-- **ref_equiv.** `apply r d` succeeds with value `v` and trace `l` iff the single-pass reference semantics derives
+`r ⇓ (v, l)` on `d` — for all rules and all data, whatever operation-shaped values the data contains. -/
+theorem ref_equiv (r d : Json) (l : List Json) (v : Json) :
+    apply r d = ⟨l, .ok v⟩ ↔ Spec.Ref.eval r d = Spec.Ref.R.val v l := by
+  rw [ref_agree]; exact (JL.Lemmas.C04Ref.ofM_eq_val _ v l).symm
+
+/-- and the reference semantics has no result exactly when the model ends in an error or a panic -/
+theorem ref_fail_iff (r d : Json) :
+    Spec.Ref.eval r d = Spec.Ref.R.fail ↔ ∀ v, (apply r d).out ≠ .ok v := by
+  rw [ref_agree]
+  cases h : apply r d with | mk l o =>
+  cases o with
+  | ok a =>
+    constructor
+    · intro h'; cases h'
+    · intro h'; exact absurd rfl (h' a)
+  | err =>
+    constructor
+    · intro _ v hv; cases hv
+    · intro _; rfl
+  | panic =>
+    constructor
+    · intro _ v hv; cases hv
+    · intro _; rfl
+
 /-! ## non-vacuity -/
+
+-- the reference semantics on marker data: the operation-shaped value read by `var` is returned, not run
+example : Spec.Ref.eval (.obj [("var".toList, .str "d".toList)])
+    (.obj [("d".toList, .obj [("log".toList, .str "LEAK".toList)])]) =
+    Spec.Ref.R.val (.obj [("log".toList, .str "LEAK".toList)]) [] := by decide +kernel
+
+-- … and on a rule using lazy, eager and data operators with a trace
+example : Spec.Ref.eval (.obj [("if".toList, .arr [.obj [("some".toList, .arr [.obj [("var".toList, .str "xs".toList)],
+      .obj [("log".toList, .obj [("var".toList, .str [])])]])], .str "yes".toList, .str "no".toList])])
+    (.obj [("xs".toList, .arr [.num (.pos 0), .num (.pos 7), .num (.pos 9)])]) =
+    Spec.Ref.R.val (.str "yes".toList) [.num (.pos 0), .num (.pos 7)] := by decide +kernel
 
 -- a default that looks like an operation, read from the data, is returned as it is
 example : apply (.obj [("var".toList, .arr [.str "zz".toList, .obj [("var".toList, .str "d".toList)]])])
